@@ -76,15 +76,28 @@ def removeStep (L : Labware) (i : Nat) (v : Rat) : Except Err Labware :=
 def log (L : Labware) (label : Option String) : Labware :=
   { L with hist := L.hist ++ [(label, L.vols)] }
 
-/-- `Labware.condense_log(n, label)`; `label` "first"/"last" are keywords. -/
-def condenseLog (L : Labware) (n : Nat) (label : Option String) : Labware :=
+/-- `Labware.condense_log(n, label)`; `label` "first"/"last" are keywords.
+    `self._labels[len - n]` raises IndexError for `n = 0` and wraps around for `n > len`. -/
+def condenseLog (L : Labware) (n : Nat) (label : Option String) : Except Err Labware :=
   let len := L.hist.length
-  let label1 : Option String :=
-    if label = some "first" then ((L.hist.getD (len - n) (none, [])).1) else label
-  let label2 : Option String :=
-    if label1 = some "last" then ((L.hist.getLast?.getD (none, [])).1) else label1
-  let state := (L.hist.getLast?.getD (none, [])).2
-  { L with hist := L.hist.take (len - n) ++ [(label2, state)] }
+  let firstIdx : Option Nat :=
+    if n = 0 then none
+    else if n ≤ len then some (len - n)
+    else if n ≤ 2 * len then some (2 * len - n)
+    else none
+  let label1 : Except Err (Option String) :=
+    if label = some "first" then
+      match firstIdx with
+      | some i => .ok ((L.hist.getD i (none, [])).1)
+      | none => .error .reject
+    else .ok label
+  match label1 with
+  | .error e => .error e
+  | .ok label1 =>
+    let label2 : Option String :=
+      if label1 = some "last" then ((L.hist.getLast?.getD (none, [])).1) else label1
+    let state := (L.hist.getLast?.getD (none, [])).2
+    .ok { L with hist := L.hist.take (len - n) ++ [(label2, state)] }
 
 end Labware
 
